@@ -27,6 +27,11 @@ def parseAOp (j : Json) : P AsyncClient.Op := do
   | "made" => pure .connectionMade
   | "lost" => pure .connectionLost
   | "close" => pure (.close ((← nat (← nth l 1)) != 0))
+  | "execfail" =>
+    match (← str (← nth l 1)) with
+    | "encode" => pure (.execFail .encode)
+    | "write" => pure (.execFail .write)
+    | w => throw s!"bad execfail kind {w}"
   | "exec" => pure (.execute (← parseAReq (← nth l 1)))
   | "reply" => pure (.reply (← nat (← nth l 1)) (← nat (← nth l 2)))
   | o => throw s!"bad async op {o}"
@@ -41,6 +46,8 @@ def jAEv : AsyncClient.Event → Json
   | .errback id w => jArr [Json.str "eb", jNat id, Json.str (whyName w)]
   | .exc e => jArr [Json.str "exc", Json.str e.name]
   | .tclose => jArr [Json.str "tclose"]
+  | .sendFail .encode => jArr [Json.str "sendfail", Json.str "encode"]
+  | .sendFail .write => jArr [Json.str "sendfail", Json.str "write"]
 
 def parseAEv (j : Json) : P AsyncClient.Event := do
   let l ← arr j
@@ -54,6 +61,10 @@ def parseAEv (j : Json) : P AsyncClient.Event := do
     | w => throw s!"bad errback kind {w}"
   | "exc" => pure (.exc .other)
   | "tclose" => pure .tclose
+  | "sendfail" =>
+    match (← str (← nth l 1)) with
+    | "encode" => pure (.sendFail .encode)
+    | _ => pure (.sendFail .write)
   | o => throw s!"bad async event {o}"
 
 def jVerdict (x : Spec.Verdict) : Json :=
